@@ -375,6 +375,14 @@ class Check(common.Check):
             return []
         self._rate_sweep = len(sw)
         out = []
+        # every well-formed graph function compiles: the constructor forms (default arguments, or one signal)
+        # that compile on the reference tree still compile
+        import json as _json
+        ref = {(a, b) for a, b, _ in _json.loads((common.VERIF / 'harness/c01_sweep_ref.json').read_text())}
+        now = {(r[0], r[1]) for r in sw}
+        for name, ctor in sorted(ref - now):
+            out.append({'what': f'{name}.{ctor}(…) with default arguments (or one signal of its own rate) no longer compiles',
+                        'signature': f'c01:valid-rejected:{name}', 'case': {'class': name, 'ctor': ctor}})
         for name, ctor, argkind, status, want, rates in sw:
             if status == 'ok' and want is not None and rates and any(r != want for r in rates):
                 out.append({'what': f'{name}.{ctor}(...) is emitted with rate {rates}, created at rate {want}',
